@@ -248,7 +248,8 @@ def boundary_name(rng, big=True):
 
 def _tier_name(rng, tier):
     n = rand_name(rng)
-    if tier == 'quick' and sum(len(c) for c in n) > 3000 and rng.random() < 0.7:
+    # (every case and its observation stay in memory until the end of a run: most 64 kB names / payloads are cut back)
+    if sum(len(c) for c in n) > 3000 and rng.random() < (0.7 if tier == 'quick' else 0.85):
         n = boundary_name(rng, big=False)
     return n
 
@@ -328,7 +329,7 @@ KEYED = ('hmac', 'ec256', 'ec384', 'ec521', 'rsa2048', 'rsa4096', 'ed25519')
 def _stress_common(rng, c, tier):
     """dimensions shared by Data and Interest: the form the name is handed over in, one long component, a long
     KeyLocator name for the keyed signers, a signer writing unusual SignatureInfo fields, RSA-4096 (thorough)"""
-    big_ok = tier != 'quick' and rng.random() < 0.15
+    big_ok = tier != 'quick' and rng.random() < 0.05
     r = rng.random()
     if r < 0.3:
         c['name_form'] = rng.choice(NAME_FORMS[3:])
@@ -352,7 +353,7 @@ def gen_data_case(rng, tier):
     if tier == 'quick' and signer[0] == 'rsa2048' and rng.random() < 0.7:
         signer = ['ec256']
     size = boundary_size(rng)
-    if tier == 'quick' and size > 2000 and rng.random() < 0.6:
+    if size > 2000 and rng.random() < (0.6 if tier == 'quick' else 0.8):
         size = rng.randint(0, 300)
     mi = {'content_type': rng.choice([None, 0, 1, 2, 3, 255, 256, 70000]),
           'freshness_period': rng.choice([None, 0, 1, 1000, 2 ** 32, 2 ** 63]),
@@ -380,7 +381,7 @@ def gen_interest_case(rng, tier):
     if tier == 'quick' and signer[0] == 'rsa2048' and rng.random() < 0.7:
         signer = ['ec256']
     size = boundary_size(rng)
-    if tier == 'quick' and size > 2000 and rng.random() < 0.6:
+    if size > 2000 and rng.random() < (0.6 if tier == 'quick' else 0.8):
         size = rng.randint(0, 300)
     name = _tier_name(rng, tier)
     ap = rng.choice([None, None, size, size])
@@ -400,7 +401,7 @@ def gen_interest_case(rng, tier):
         _stress_common(rng, c, tier)
         if c['signer'][0] == 'none' and c['app'] is None:
             c['name'] = [x for x in c['name'] if not x.startswith('02')]
-        big_ok = tier != 'quick' and rng.random() < 0.1
+        big_ok = tier != 'quick' and rng.random() < 0.04
         r = rng.random()
         if r < 0.3:
             # ForwardingHint: many names, or names long enough to move the Length of Links / of one Name across 253
